@@ -1,4 +1,16 @@
-/- GENERATED by tools/py2lean.py from /repo/src — do not edit. -/
+/-
+  Reference definitions of the straight-line integer parts of /repo/src/h2 that the model calls and the theorems are
+  about: windows.py (class WindowManager), settings._validate_setting, utilities.guard_increment_window.
+
+  This file is NOT regenerated.  tools/py2lean.py translates the current source into `H2/Gen/WindowsRaw.lean`
+  (namespace `H2.GenRaw`, same structure type) on every run, and `H2/Gen/Bridge/*.lean` prove, on every run, that each
+  regenerated function is equal to the definition here (`H2.Bridge.*_eq`; unfold both, split every `if`, arithmetic).
+  A property whose theorems depend on one of these definitions (found by walking the constants its theorems use,
+  `#gen_deps`, H2/Gen/Deps.lean) is only claimed when the corresponding bridge theorem checks.  That makes the tie
+  insensitive to how windows.py spells its arithmetic (temporaries, `x += y`, `max(..)`, the order of disjoint `elif`
+  branches) and sensitive to what it computes.
+  (Text: the translator's output for the pinned commit plus the three defect repairs.)
+-/
 import H2.Gen.Tables
 namespace H2.Gen
 
